@@ -457,6 +457,9 @@ func leafAssume(x *Term, l Leaf) []*Term {
 			}
 			return nil
 		}
+		if l.Kind == LSLen {
+			return []*Term{Le(IntC(0), x), Le(x, BigC(new(big.Int).SetUint64(1<<62)))}
+		}
 		if l.Kind == LRef || l.Kind == LSBase {
 			// unknown references are non-negative, objects allocated by the execution have
 			// negative constant ids: remembered so that Select can tell them apart
